@@ -9,8 +9,31 @@ ROOT = os.path.dirname(os.path.dirname(os.path.abspath(__file__)))
 sys.path.insert(0, os.path.join(ROOT, "tools"))
 import seedtest  # noqa: E402
 
-DEMO_DIR = {"C06": "handler/sqlite", "C14": "handler/sqlite", "C19": "middleware/prometheus",
-            ("C13", 2): "handler/sqlite", ("C16", 3): "handler/sqlite"}
+import re
+
+SRC = "/tmp/seed2"
+TAG = "w"
+args = sys.argv[1:]
+while args and args[0].startswith("--"):
+    if args[0] == "--src":
+        SRC = args[1]
+    elif args[0] == "--tag":
+        TAG = args[1]
+    args = args[2:]
+
+
+def demo_dir(src):
+    """where the demo belongs: decided by its package clause"""
+    for f in sorted(os.listdir(src)):
+        if f.endswith(".go"):
+            m = re.search(r"^package\s+(\w+)", open(os.path.join(src, f)).read(), re.M)
+            pkg = m.group(1) if m else ""
+            if pkg.startswith("sqlite"):
+                return "handler/sqlite"
+            if pkg.startswith("prometheus"):
+                return "middleware/prometheus"
+            return "."
+    return "."
 
 
 def log(s):
@@ -18,13 +41,13 @@ def log(s):
         f.write(s + "\n")
 
 
-for p in sys.argv[1:]:
+for p in args:
     for k in (1, 2, 3):
-        src = "/tmp/seed2/%s-out/%d" % (p, k)
+        src = "%s/%s-out/%d" % (SRC, p, k)
         if not os.path.exists(os.path.join(src, "patch.diff")):
             continue
-        sid = "%s-w%d" % (p, k)
-        dd = DEMO_DIR.get((p, k)) or DEMO_DIR.get(p) or "."
+        sid = "%s-%s%d" % (p, TAG, k)
+        dd = demo_dir(src)
         try:
             seedtest.do_import(src, sid, p, dd)
             import json
@@ -32,9 +55,9 @@ for p in sys.argv[1:]:
             log("%s imported %s" % (sid, json.dumps(m["confirmed"])[:160]))
         except Exception as e:
             log("%s import failed: %s" % (sid, e))
-    subprocess.run(["git", "-C", "/repo", "worktree", "remove", "--force", "/tmp/seed2/" + p])
+    subprocess.run(["git", "-C", "/repo", "worktree", "remove", "--force", SRC + "/" + p])
     for k in (1, 2, 3):
-        sid = "%s-w%d" % (p, k)
+        sid = "%s-%s%d" % (p, TAG, k)
         if os.path.exists(os.path.join(ROOT, "seeded", sid, "meta.json")):
             try:
                 res = seedtest.do_run(sid)
